@@ -1,10 +1,219 @@
-//! C20 — (stub; filled in during the build phase)
+//! C20 — visitor traversal presents every element exactly once, in source order.
 
 use super::PropMeta;
 use crate::engine::*;
+use crate::model::run::*;
+use crate::model::tree::*;
+use crate::util::*;
+use serde_json::Value;
+use slicec::grammar::*;
+use slicec::slice_file::SliceFile;
+use slicec::visitor::Visitor;
 
-pub fn meta(_m: &mut PropMeta) {}
+pub fn meta(m: &mut PropMeta) {
+    m.rule = "the C02 program families (every definition kind, anonymous types nested to depth 3 in every position, aliases of anonymous types and their uses, two-file programs whose files reference each other), each file walked separately with a recording visitor; the recorded callback sequence must equal the sequence derived from the model: file, module, definitions in source order, containers before contents, fields / operations / parameters then return members / enumerators / enumerator fields in order, each owner's type reference right after the owner followed depth-first by its nested element, key, value, success and failure references; every entity declared in the file exactly once; nothing from another file. Nested references reached THROUGH an alias of an anonymous type are optional events (the statement's 'to any depth' and 'nothing from another file / nothing twice' clauses pull in opposite directions there). steps = callbacks compared; non-trivial = the file has a nested type or more than one member.";
+    m.explanation = "bounded-exhaustive program enumeration with a model-derived expected callback sequence";
+    m.quick_bound = "as C02 quick";
+    m.thorough_bound = "as C02 thorough";
+}
 
-pub fn families(_tier: &str) -> Vec<Box<dyn Family>> {
-    vec![]
+#[derive(Default)]
+struct Recorder {
+    events: Vec<String>,
+}
+fn tdesc(t: &TypeRef) -> String {
+    let is = match &t.definition {
+        TypeRefDefinition::Unpatched(id) => format!("unpatched:{}", id.value),
+        TypeRefDefinition::Patched(_) => match t.concrete_type() {
+            Types::Primitive(p) => format!("prim:{}", p.kind()),
+            Types::Struct(s) => format!("def:struct:{}", s.module_scoped_identifier()),
+            Types::Enum(s) => format!("def:enum:{}", s.module_scoped_identifier()),
+            Types::CustomType(s) => format!("def:custom:{}", s.module_scoped_identifier()),
+            Types::Sequence(_) => "seq".into(),
+            Types::Dictionary(_) => "dict".into(),
+            Types::ResultType(_) => "result".into(),
+        },
+    };
+    format!("type:{is}:{}", t.is_optional)
+}
+impl Visitor for Recorder {
+    fn visit_file(&mut self, f: &SliceFile) {
+        self.events.push(format!("file:{}", f.relative_path));
+    }
+    fn visit_module(&mut self, m: &Module) {
+        self.events.push(format!("module:{}", m.nested_module_identifier()));
+    }
+    fn visit_struct(&mut self, x: &Struct) {
+        self.events.push(format!("struct:{}", x.parser_scoped_identifier()));
+    }
+    fn visit_interface(&mut self, x: &Interface) {
+        self.events.push(format!("interface:{}", x.parser_scoped_identifier()));
+    }
+    fn visit_enum(&mut self, x: &Enum) {
+        self.events.push(format!("enum:{}", x.parser_scoped_identifier()));
+    }
+    fn visit_operation(&mut self, x: &Operation) {
+        self.events.push(format!("operation:{}", x.parser_scoped_identifier()));
+    }
+    fn visit_custom_type(&mut self, x: &CustomType) {
+        self.events.push(format!("custom:{}", x.parser_scoped_identifier()));
+    }
+    fn visit_type_alias(&mut self, x: &TypeAlias) {
+        self.events.push(format!("alias:{}", x.parser_scoped_identifier()));
+    }
+    fn visit_field(&mut self, x: &Field) {
+        self.events.push(format!("field:{}", x.parser_scoped_identifier()));
+    }
+    fn visit_parameter(&mut self, x: &Parameter) {
+        self.events.push(format!("parameter:{}", x.parser_scoped_identifier()));
+    }
+    fn visit_enumerator(&mut self, x: &Enumerator) {
+        self.events.push(format!("enumerator:{}", x.parser_scoped_identifier()));
+    }
+    fn visit_type_ref(&mut self, t: &TypeRef) {
+        self.events.push(tdesc(t));
+    }
+}
+
+#[derive(Debug, Clone)]
+struct Ev {
+    text: String,
+    /// reached through an alias of an anonymous type: may or may not be presented
+    optional: bool,
+}
+
+fn expect_type(n: &Node, r: &crate::model::print::Rendered, optional: bool, out: &mut Vec<Ev>) {
+    let _ = r;
+    let pos = "";
+    out.push(Ev { text: format!("type:{}:{}{}", n.get("is").unwrap_or("?"), n.get("optional").unwrap_or("?"), pos), optional });
+    for c in &n.children {
+        if c.kind == "type" {
+            // nested references written here are mandatory; those that came with an alias target are optional
+            expect_type(c, r, optional || c.pos.is_none(), out);
+        }
+    }
+}
+
+fn expect(n: &Node, scope: &str, r: &crate::model::print::Rendered, out: &mut Vec<Ev>) {
+    let id = n.get("id").unwrap_or("");
+    let scoped = if scope.is_empty() { id.to_string() } else { format!("{scope}::{id}") };
+    let ev = |s: String| Ev { text: s, optional: false };
+    match n.kind {
+        "module" => out.push(ev(format!("module:{id}"))),
+        "struct" | "interface" | "enum" | "custom" | "alias" | "operation" | "field" | "enumerator" => {
+            out.push(ev(format!("{}:{}", n.kind, scoped)));
+            for c in &n.children {
+                match c.kind {
+                    "type" => expect_type(c, r, false, out),
+                    "base" | "underlying" | "attr" | "doc" | "identifier" => {}
+                    _ => expect(c, &scoped, r, out),
+                }
+            }
+        }
+        "param" | "ret" => {
+            out.push(ev(format!("parameter:{scoped}")));
+            for c in &n.children {
+                if c.kind == "type" {
+                    expect_type(c, r, false, out);
+                }
+            }
+        }
+        _ => {}
+    }
+}
+
+fn matches_ev(exp: &str, obs: &str) -> bool {
+    // type references are identified by what they designate and their optionality (not by their spans: a wrong
+    // span is C09's subject and must not raise an alarm here)
+    exp == obs
+}
+
+pub struct VisitOrder {
+    pub inner: Box<dyn ProgFamily>,
+}
+
+impl Family for VisitOrder {
+    fn name(&self) -> String {
+        self.inner.name()
+    }
+    fn len(&self) -> u64 {
+        self.inner.len()
+    }
+    fn describe(&self, idx: u64) -> Value {
+        describe_case(&self.inner.get(idx))
+    }
+    fn run(&self, idx: u64) -> CaseOut {
+        let case = self.inner.get(idx);
+        let fam = self.inner.name();
+        let fam = fam.split('/').next().unwrap().to_string();
+        let rendered = render_program(&case.program, &case.layout);
+        let mut out = CaseOut::new(case_hash(&rendered));
+        out.validated = 1;
+        let keep = rendered.clone();
+        match compile_rendered(rendered, None) {
+            Err((loc, _)) => out.class = format!("panic@{loc}"),
+            Ok(c) => {
+                if !c.errors().is_empty() {
+                    out.class = "rejected".into();
+                    return out;
+                }
+                let mut total = 0u64;
+                for (i, r) in keep.iter().enumerate() {
+                    let mut rec = Recorder::default();
+                    if let Err((loc, msg)) = guarded(|| c.files[i].visit_with(&mut rec)) {
+                        out.violate(format!("c20/{fam}/panic@{loc}"), format!("walking file {i} panicked at {loc}: {msg}\n--- input ---\n{}", r.text));
+                        continue;
+                    }
+                    let mut exp = vec![Ev { text: format!("file:string-{i}"), optional: false }];
+                    let module_scope = r.tree.children.iter().find(|c| c.kind == "module").and_then(|m| m.get("id")).unwrap_or("").to_string();
+                    for ch in &r.tree.children {
+                        expect(ch, &module_scope, r, &mut exp);
+                    }
+                    if exp.iter().filter(|e| e.text.starts_with("type:seq") || e.text.starts_with("type:dict") || e.text.starts_with("type:result")).count() > 0 || exp.len() > 6 {
+                        out.nontrivial = true;
+                    }
+                    // align: mandatory events must match one for one, optional ones may be skipped
+                    let obs = &rec.events;
+                    let (mut ei, mut oi) = (0usize, 0usize);
+                    let mut problem: Option<(String, String)> = None;
+                    while ei < exp.len() || oi < obs.len() {
+                        if ei < exp.len() && oi < obs.len() && matches_ev(&exp[ei].text, &obs[oi]) {
+                            ei += 1;
+                            oi += 1;
+                            continue;
+                        }
+                        if ei < exp.len() && exp[ei].optional {
+                            ei += 1;
+                            continue;
+                        }
+                        let e = exp.get(ei).map(|e| e.text.clone()).unwrap_or("<end of traversal>".into());
+                        let o = obs.get(oi).cloned().unwrap_or("<end of traversal>".into());
+                        let ekind = e.split(':').next().unwrap_or("").to_string();
+                        let okind = o.split(':').next().unwrap_or("").to_string();
+                        problem = Some((format!("expected-{ekind}-got-{okind}"), format!("callback #{oi}: expected {e}, visitor presented {o}")));
+                        break;
+                    }
+                    total += obs.len() as u64;
+                    if let Some((sig, msg)) = problem {
+                        out.violate(format!("c20/{fam}/order/{sig}"), format!("file {i}: {msg}\nexpected sequence: {:?}\nobserved sequence: {:?}\n--- input ---\n{}", exp.iter().map(|e| if e.optional { format!("({})", e.text) } else { e.text.clone() }).collect::<Vec<_>>(), obs, r.text));
+                    }
+                    // nothing twice (entities)
+                    let mut seen = std::collections::HashSet::new();
+                    for e in obs.iter().filter(|e| !e.starts_with("type:")) {
+                        if !seen.insert(e.clone()) {
+                            out.violate(format!("c20/{fam}/presented-twice/{}", e.split(':').next().unwrap()), format!("file {i}: {e} was presented twice\n--- input ---\n{}", r.text));
+                            break;
+                        }
+                    }
+                }
+                out.steps = total;
+                out.class = format!("walked:{}-callbacks", (total / 10) * 10);
+            }
+        }
+        out
+    }
+}
+
+pub fn families(tier: &str) -> Vec<Box<dyn Family>> {
+    crate::model::families::program_families(tier).into_iter().map(|f| Box::new(VisitOrder { inner: f }) as Box<dyn Family>).collect()
 }
